@@ -7,12 +7,24 @@ use ldk_verif_harness::common::*;
 use ldk_verif_harness::sim::*;
 use std::collections::BTreeMap;
 
-fn scenario(rng: &mut Rng, steps: usize, async_persist: bool, with_disc: bool) -> (Net, Vec<String>) {
+fn scenario(rng: &mut Rng, steps: usize, async_persist: bool, with_disc: bool, with_fee: bool) -> (Net, Vec<String>) {
 	let mut viol: Vec<String> = vec![];
 	let mut at_limit: Vec<(usize, &'static str, u64, bool)> = vec![]; // (payment, which bound, amount, raced: the peer had / later originated HTLCs the sender could not know when it read the limit)
 	let mut user_failed: Vec<usize> = vec![];
 	let cfg = if rng.chance(1, 2) { Some(lightning::ln::functional_test_utils::test_legacy_channel_config()) } else { None };
-	let mut net = Net::new(2, vec![cfg.clone(), cfg]);
+	// asymmetric reserves: what each node REQUIRES of its peer (1 % default); in fee scenarios the fundee demands a large reserve
+	// of the funder, so that a fee increase the funder cannot afford above THAT reserve is a reachable state
+	let (cfg0, cfg1) = {
+		let base = cfg.clone().unwrap_or_else(lightning::ln::functional_test_utils::test_default_channel_config);
+		let (mut c0, mut c1) = (base.clone(), base);
+		let asym = with_fee || rng.chance(1, 2);
+		if asym {
+			c0.channel_handshake_config.their_channel_reserve_proportional_millionths = *rng.pick(&[10_000u32, 10_000, 20_000, 50_000]);
+			c1.channel_handshake_config.their_channel_reserve_proportional_millionths = if with_fee { *rng.pick(&[100_000u32, 150_000, 200_000]) } else { *rng.pick(&[10_000u32, 30_000, 100_000]) };
+		}
+		if cfg.is_none() && !asym { (None, None) } else { (Some(c0), Some(c1)) }
+	};
+	let mut net = Net::new(2, vec![cfg0, cfg1]);
 	let value = *rng.pick(&[100_000u64, 1_000_000, 5_000_000]);
 	let push = rng.below(value * 1000 / 2);
 	let c = net.open(0, 1, value, push);
@@ -30,13 +42,24 @@ fn scenario(rng: &mut Rng, steps: usize, async_persist: bool, with_disc: bool) -
 			net.sample_balances(c); continue;
 		}
 		if with_disc && rng.chance(1, 14) { if linked { net.disconnect(0, 1); net.trace.push(Obs::Event { node: 0, text: "DISCONNECT".into() }); } else { net.reconnect(0, 1); net.trace.push(Obs::Event { node: 0, text: "RECONNECT".into() }); } net.sample_balances(c); continue; }
+		// (only at a quiet moment: timer ticks while a response is outstanding would trip the peer-unresponsive disconnect timer)
+		if with_fee && connected && rng.chance(1, 8) && (0..2).all(|i| net.pending_updates(i, c).is_empty()) && { net.settle(6); net.any_queued().is_none() && (0..2).all(|i| net.pending_updates(i, c).is_empty()) } {
+			// the funder's fee estimator moves; timer_tick_occurred proposes an update_fee when it can afford it
+			let f = match rng.below(4) { 0 => 253, 1 => rng.range(253, 1500) as u32, 2 => rng.range(1500, 6000) as u32, _ => rng.range(253, 20_000) as u32 };
+			// both nodes see the same fee environment (their dust-exposure limits are multiples of their OWN estimate)
+			for i in 0..2 { *net.nodes[i].fee_estimator.sat_per_kw.lock().unwrap() = f; }
+			net.nodes[0].node.timer_tick_occurred();
+			net.pump(0);
+			net.trace.push(Obs::Event { node: 0, text: format!("FEERATE {}", f) });
+			net.sample_balances(c); continue;
+		}
 		match rng.below(16) {
 			0 | 1 | 2 if connected => {
-				let (a, b) = if rng.chance(1, 2) { (0, 1) } else { (1, 0) };
+				let (a, b) = if rng.chance(1, 2) || (with_fee && rng.chance(1, 2)) { (0, 1) } else { (1, 0) };
 				let lim = net.nodes[a].node.list_channels()[0].next_outbound_htlc_limit_msat;
 				let min = net.nodes[a].node.list_channels()[0].next_outbound_htlc_minimum_msat;
 				if lim >= min && lim > 0 {
-					let sel = rng.below(6);
+					let sel = if with_fee && a == 0 && rng.chance(1, 2) { 1 } else { rng.below(6) };
 					if sel == 5 {
 						// outside the reported limits: must be refused locally and leave the channel untouched
 						let amt = if rng.chance(1, 2) || min <= 1 { lim + 1 } else { min - 1 };
@@ -50,7 +73,7 @@ fn scenario(rng: &mut Rng, steps: usize, async_persist: bool, with_disc: bool) -
 						else if before != after { viol.push(format!("refused send of {} msat (limits [{}, {}]) changed the channel", amt, min, lim)); }
 					} else {
 						let amt = match sel { 0 => min, 1 => lim, 2 => 354_000 + rng.below(2000), _ => min + rng.below(lim - min + 1) }.clamp(min, lim);
-						let raced = peer_has_unknown_adds(&net, a, b);
+						let raced = with_fee || peer_has_unknown_adds(&net, a, b);
 						mark_raced(&net, &mut at_limit, b);
 						let r = net.send(&[a, b], &[c], amt, 70 + rng.below(40) as u32);
 						net.process_events(a);
@@ -71,7 +94,7 @@ fn scenario(rng: &mut Rng, steps: usize, async_persist: bool, with_disc: bool) -
 					let lim = net.nodes[j].node.list_channels()[0].next_outbound_htlc_limit_msat;
 					let min = net.nodes[j].node.list_channels()[0].next_outbound_htlc_minimum_msat;
 					if lim >= min && lim > 0 {
-						let raced = peer_has_unknown_adds(&net, j, i);
+						let raced = with_fee || peer_has_unknown_adds(&net, j, i);
 						mark_raced(&net, &mut at_limit, i);
 						let r = net.send(&[j, i], &[c], lim, 80);
 						net.process_events(j);
@@ -113,6 +136,7 @@ fn scenario(rng: &mut Rng, steps: usize, async_persist: bool, with_disc: bool) -
 	// (it ends up claimable there and, since the drain claims everything claimable, PaymentSent at the sender)
 	for (p, what, amt, raced) in at_limit {
 		if user_failed.contains(&p) { continue; }
+		if with_fee { continue; } // an update_fee in flight changes what the peer evaluates: acceptance of at-limit HTLCs is not judged here
 		let h = net.pays[p].hash; let from = net.pays[p].from;
 		let sent = net.events[from].iter().any(|e| matches!(e, lightning::events::Event::PaymentSent { payment_hash, .. } if *payment_hash == h));
 		if !sent {
@@ -123,10 +147,13 @@ fn scenario(rng: &mut Rng, steps: usize, async_persist: bool, with_disc: bool) -
 			// HTLCs of its own that the sender could not have seen, the commitment the peer evaluates contains more HTLCs (more
 			// fee for the funder) than the one the limit was computed for: crossing updates, inherent to the asynchronous
 			// protocol, not an inexact limit. Such probes are exempt when the peer's reason is the balance check.
-			if raced && why.iter().all(|w| w.contains("ChannelBalanceOverdrawn")) && !why.is_empty() { continue; }
+			if raced && why.iter().all(|w| w.contains("ChannelBalanceOverdrawn") || w.contains("FeeSpikeBuffer")) && !why.is_empty() { continue; }
+			// same race on the sender's side: the HTLC waited in the sender's holding cell (a commitment was in flight) and no
+			// longer fitted when the cell was freed; the peer never saw it
+			if raced && why.is_empty() && locally_failed(&net, from, Some(p)) { continue; }
 			let ch = &net.nodes[from].node.list_channels();
 			let outbound = ch.get(0).map(|c| c.is_outbound).unwrap_or(false);
-			viol.push(format!("HTLC of {} msat sent exactly at the reported {} was not accepted by the peer (no PaymentSent after the drain); sender n{} is the {}; peer's HTLCHandlingFailed events: {:?}", amt, what, from, if outbound { "funder" } else { "NON-funder" }, why));
+			viol.push(format!("HTLC of {} msat sent exactly at the reported {} was not accepted by the peer (no PaymentSent after the drain); sender n{} is the {}; crossing updates: {}; peer's HTLCHandlingFailed events: {:?}", amt, what, from, if outbound { "funder" } else { "NON-funder" }, raced, why));
 		}
 	}
 	(net, viol)
@@ -210,6 +237,80 @@ fn probe_bad_raa(flip_secret: bool, after_updates: usize) -> Option<String> {
 	let gone = net.nodes[0].node.list_channels().is_empty() || !net.nodes[0].node.list_channels()[0].is_usable;
 	std::mem::forget(net);
 	if rejected && gone { None } else { Some(format!("a revoke_and_ack with a corrupted per_commitment_secret (flip_secret={}, after {} updates) was not refused (protocol error seen: {}, channel unusable: {})", flip_secret, after_updates, rejected, gone)) }
+}
+
+/// C05: a `commitment_signed` whose HTLC signatures are missing, surplus, permuted or signatures of something else must be
+/// refused BEFORE the node revokes its previous state: no `revoke_and_ack` in answer, protocol error, channel unusable.
+/// (`kind`: 0 drop the last HTLC signature, 1 drop all, 2 replace one by the commitment signature, 3 swap two, 4 append one)
+fn probe_bad_cs(kind: u8, n_htlcs: usize) -> Option<String> {
+	let mut net = Net::new(2, vec![None, None]);
+	let c = net.open(0, 1, 1_000_000, 400_000_000);
+	// n_htlcs - 1 non-dust HTLCs 0 -> 1 stay pending (never claimed); the next commitment_signed carries n_htlcs HTLC signatures
+	for _ in 1..n_htlcs { net.send(&[0, 1], &[c], 3_000_000, 80).ok()?; net.settle(8); }
+	let _p = net.send(&[0, 1], &[c], 3_100_000, 80).ok()?;
+	net.deliver(0, 1)?; // the add
+	let q = net.q.get_mut(&(0, 1))?;
+	let pos = q.iter().position(|w| matches!(w, Wire::Commit(_)))?;
+	let mut applicable = false;
+	if let Wire::Commit(v) = &mut q[pos] {
+		if let Some(m) = v.get_mut(0) {
+			applicable = if m.htlc_signatures.len() != n_htlcs { false } else { match kind {
+				0 => { m.htlc_signatures.pop(); true },
+				1 => { m.htlc_signatures.clear(); true },
+				2 => { let s = m.signature; let k = m.htlc_signatures.len() - 1; m.htlc_signatures[k] = s; true },
+				3 => if m.htlc_signatures.len() >= 2 && m.htlc_signatures[0] != m.htlc_signatures[1] { m.htlc_signatures.swap(0, 1); true } else { false },
+				_ => { let s = m.htlc_signatures[0]; m.htlc_signatures.push(s); true },
+			} };
+		}
+	}
+	if !applicable { std::mem::forget(net); return if kind == 3 { None } else { Some(format!("probe_bad_cs: the commitment_signed does not carry the expected {} HTLC signatures", n_htlcs)) }; }
+	let before = net.trace.len();
+	while let Some(k) = net.deliver(0, 1) { if k == "cs" { break; } }
+	let raa_sent = net.q.get(&(1, 0)).map(|q| q.iter().any(|w| matches!(w, Wire::Raa(_)))).unwrap_or(false);
+	let rejected = net.trace[before..].iter().any(|o| matches!(o, Obs::ProtoError { .. })) || !net.closed.is_empty();
+	let gone = net.nodes[1].node.list_channels().is_empty() || !net.nodes[1].node.list_channels()[0].is_usable;
+	std::mem::forget(net);
+	if rejected && gone && !raa_sent { None } else { Some(format!("a commitment_signed with corrupted HTLC signatures (kind {}, {} non-dust HTLCs) was not refused before revoking: revoke_and_ack sent: {}, protocol error seen: {}, channel unusable: {}", kind, n_htlcs, raa_sent, rejected, gone)) }
+}
+
+/// C09: a preimage update generated while `held` monitor updates are blocked (the peer's revoke_and_ack behind an unhandled
+/// PaymentSent event, then `extra_held` further commitment_signed updates) must jump the queue so that chain::Watch still sees
+/// a gap-free, strictly increasing id sequence; nothing panics, every payment completes.
+fn probe_jump_over_held(extra_held: usize) -> Option<(u64, Option<String>)> {
+	fn drain(net: &mut Net, skip_events_of: Option<usize>) {
+		for _ in 0..30 {
+			let mut moved = false;
+			while let Some((i, j)) = net.any_queued() { net.deliver(i, j); moved = true; }
+			for i in 0..2 {
+				if net.nodes[i].node.needs_pending_htlc_processing() { net.forward(i); moved = true; }
+				if Some(i) != skip_events_of { let b = net.trace.len(); net.process_events(i); if net.trace.len() != b { moved = true; } }
+			}
+			if !moved { break; }
+		}
+	}
+	let mut net = Net::new(2, vec![None, None]);
+	let c = net.open(0, 1, 1_000_000, 400_000_000);
+	let p1 = net.send(&[0, 1], &[c], 5_000_000, 80).ok()?; drain(&mut net, None); // claimable at node 1, not claimed yet
+	let p2 = net.send(&[1, 0], &[c], 4_000_000, 80).ok()?; drain(&mut net, None); // claimable at node 0
+	net.claim(p2); // node 0 fulfils; node 1 leaves its PaymentSent event unhandled from here on
+	drain(&mut net, Some(1));
+	let mut more = vec![];
+	for _ in 0..extra_held { more.push(net.send(&[0, 1], &[c], 3_000_000, 80).ok()?); drain(&mut net, Some(1)); }
+	let (cp, cid) = (net.ids[0], net.chans[c].2);
+	let held = lightning::ln::verif_hooks::channel_restart_numbers(net.nodes[1].node, &cp, &cid).map(|n| n[5]).unwrap_or(0);
+	net.claim(p1); // the preimage update must jump ahead of the held updates
+	drain(&mut net, Some(1));
+	net.process_events(1); drain(&mut net, None);
+	for p in more { net.claim(p); drain(&mut net, None); }
+	let mut out = None;
+	let mut last: BTreeMap<usize, u64> = BTreeMap::new();
+	for o in &net.trace { if let Obs::Update { node, id, .. } = o { if let Some(prev) = last.get(node) { if *id != prev + 1 && out.is_none() { out = Some(format!("update ids handed to chain::Watch are not gap-free at node {}: {} after {}", node, id, prev)); } } last.insert(*node, *id); } }
+	if out.is_none() { if let Some(Obs::ProtoError { node, text }) = net.trace.iter().find(|o| matches!(o, Obs::ProtoError { .. })) { out = Some(format!("protocol error at node {}: {}", node, text)); } }
+	if out.is_none() && !net.closed.is_empty() { out = Some(format!("channel closed: {:?}", net.closed)); }
+	let sent = |net: &Net, p: usize| { let h = net.pays[p].hash; let f = net.pays[p].from; net.events[f].iter().any(|e| matches!(e, lightning::events::Event::PaymentSent { payment_hash, .. } if *payment_hash == h)) };
+	if out.is_none() && !(sent(&net, p1) && sent(&net, p2)) { out = Some(format!("payments did not complete (p1 sent: {}, p2 sent: {})", sent(&net, p1), sent(&net, p2))); }
+	std::mem::forget(net);
+	Some((held, out.map(|m| format!("preimage update ahead of {} held monitor updates (1 revoke_and_ack update behind an unhandled PaymentSent + {} later updates): {}", held, extra_held, m))))
 }
 
 /// Deterministic probe for C09 (known finding KF-C09-1): an inbound channel whose INITIAL monitor persist is still
@@ -341,8 +442,15 @@ fn main() {
 			match guarded(std::panic::AssertUnwindSafe(|| probe_bad_raa(flip, n))) { Ok(Some(m)) => rec.oracle_fail(m), Ok(None) => { *reached_in.entry("bad_raa_refused".into()).or_insert(0) += 1; }, Err(p) => rec.oracle_fail(format!("bad-raa probe panicked: {}", p.chars().take(200).collect::<String>())) }
 		}
 		rec.notes.insert("bad_raa_probes_refused".into(), format!("{}", reached_in.get("bad_raa_refused").copied().unwrap_or(0)));
+		for n in [1usize, 2, 4] { for kind in 0..5u8 {
+			match guarded(std::panic::AssertUnwindSafe(|| probe_bad_cs(kind, n))) { Ok(Some(m)) => rec.oracle_fail(m), Ok(None) => { *reached_in.entry("bad_cs_refused".into()).or_insert(0) += 1; }, Err(p) => rec.oracle_fail(format!("bad commitment_signed probe (kind {}, {} HTLCs) panicked: {}", kind, n, p.chars().take(200).collect::<String>())) }
+		} }
+		rec.notes.insert("bad_cs_probes_refused".into(), format!("{}", reached_in.get("bad_cs_refused").copied().unwrap_or(0)));
 	}
 	if args.model == "mongate" && std::env::var("VERIF_PROPERTY").map(|p| p == "C09").unwrap_or(true) {
+		for k in 0..4usize {
+			match guarded(std::panic::AssertUnwindSafe(|| probe_jump_over_held(k))) { Ok(Some((_, Some(m)))) => rec.oracle_fail(m), Ok(Some((held, None))) => { *rec.classes.entry(format!("probe:jump-over-held:ok:held={}", held)).or_insert(0) += 1; }, Ok(None) => rec.oracle_fail(format!("jump-over-held probe ({} extra) could not be set up", k)), Err(p) => rec.oracle_fail(format!("preimage update ahead of held monitor updates ({} extra): panicked: {}", k, p.chars().take(200).collect::<String>())) }
+		}
 		for m in probe_open_orders() { rec.oracle_fail(m); }
 		match guarded(std::panic::AssertUnwindSafe(probe_channel_ready_leak)) { Ok(Some(m)) => rec.oracle_fail(m), Ok(None) => { rec.notes.insert("kf_c09_1".into(), "probe did not reproduce KF-C09-1 on this tree".into()); }, Err(p) => rec.oracle_fail(format!("channel_ready probe panicked: {}", p.chars().take(300).collect::<String>())) }
 	}
@@ -354,8 +462,10 @@ fn main() {
 		let steps = if args.thorough { 60 + rng.below(200) as usize } else { 40 + rng.below(80) as usize };
 		let async_persist = sc % 2 == 1;
 		let with_disc = sc % 3 == 2 || sc % 4 == 1;
+		// fee scenarios (update_fee in flight, asymmetric reserves): implementation-side oracles only, the Lean models have no fee updates
+		let with_fee = sc % 6 == 4 || sc % 6 == 1;
 		let mut sub = Rng::new(rng.next());
-		let net = match guarded(std::panic::AssertUnwindSafe(|| scenario(&mut sub, steps, async_persist, with_disc))) {
+		let net = match guarded(std::panic::AssertUnwindSafe(|| scenario(&mut sub, steps, async_persist, with_disc, with_fee))) {
 			// the send-limit exactness oracles state C01's last sentence: they are reported under C01 only
 			Ok((n, viol)) => { let c01 = std::env::var("VERIF_PROPERTY").map(|p| p == "C01").unwrap_or(true); for v in viol { if c01 || !v.contains("limit") { rec.oracle_fail(format!("scenario {}: {}", sc, v)); } } n },
 			Err(p) => { rec.oracle_fail(format!("scenario {} (seed {}, async={}) panicked: {}", sc, args.seed, async_persist, p.chars().take(200).collect::<String>())); continue; },
@@ -390,6 +500,7 @@ fn main() {
 			if bals.len() == 2 && pending == 0 && bals[0] + bals[1] != chan_value { rec.oracle_fail(format!("scenario {}: settled balances {} + {} != channel value {}", sc, bals[0], bals[1], chan_value)); }
 		}
 
+		if with_fee { *rec.classes.entry("scenario:fee-updates(impl-oracles-only)".into()).or_insert(0) += 1; let nf = net.trace.iter().filter(|o| matches!(o, Obs::Msg { kind: "fee", .. })).count() as u64; *rec.classes.entry("msg:update_fee".into()).or_insert(0) += nf; continue; }
 		// ---- op lines ----------------------------------------------------------------------------
 		if args.model == "mongate" {
 			rec.directive(&format!("# scenario {}", sc));
